@@ -649,7 +649,7 @@ func TestC28(t *testing.T) {
 			return
 		}
 	}
-	n := c.N(60, 110)
+	n := c.N(60, 350)
 	for i := 0; i < n; i++ {
 		if c.SkipCase(i) {
 			continue
